@@ -82,6 +82,7 @@ int n_tasks() { return (int)tasks.size(); }
 bool task_done(int id) { return tasks[id]->st == T_DONE; }
 bool task_killed(int id) { return tasks[id]->killed; }
 uint64_t steps() { return g_step; }
+uint64_t handoffs() { return g_handoffs; }
 int64_t now_ns() { return g_now; }
 int64_t mono_base() { return g_mono0; }
 int64_t real_base() { return g_real0; }
@@ -472,6 +473,8 @@ int block_until(pred_fn pred, void *arg, int64_t deadline_ns, uint32_t site)
 	return t->timed_out ? 1 : 0;
 }
 
+void (*g_fault_counter)(int kind);
+
 bool fault_here(int kind, uint32_t num, int64_t *arg_out, int64_t arg_range)
 {
 	Task *t = tl_task;
@@ -482,6 +485,7 @@ bool fault_here(int kind, uint32_t num, int64_t *arg_out, int64_t arg_range)
 		std::unordered_map<uint64_t, int64_t>::iterator it = flt_map.find(fkey(t->id, kind, idx));
 		if (it == flt_map.end()) return false;
 		if (arg_out) *arg_out = arg_range > 0 ? (int64_t)((uint64_t)it->second % (uint64_t)arg_range) : it->second;
+		if (g_fault_counter) g_fault_counter(kind);
 		return true;
 	}
 	if (!g_faults_on || num == 0) return false;
@@ -490,6 +494,7 @@ bool fault_here(int kind, uint32_t num, int64_t *arg_out, int64_t arg_range)
 	int64_t a = arg_range > 0 ? (int64_t)r_fault.below((uint64_t)arg_range) : 0;
 	if (arg_out) *arg_out = a;
 	rec_fault(t->id, kind, idx, a);
+	if (g_fault_counter) g_fault_counter(kind);
 	return true;
 }
 
@@ -501,17 +506,32 @@ void access_region_add(const void *base, size_t len)
 void access_regions_clear() { regions.clear(); }
 
 void (*g_access_hook)(const void *addr, int size, int is_write, int order, int region, size_t off);
+uint64_t g_access_value;
+
+int access_region_of(const void *addr)
+{
+	const char *a = (const char *)addr;
+	for (size_t n = 0; n < regions.size(); n++)
+		if (a >= regions[n].base && a < regions[n].base + regions[n].len) return (int)n;
+	return -1;
+}
 
 void access_yield(const void *addr, int size, int is_write, int order)
 {
 	Task *t = tl_task;
 	if (!t || !g_active) return;
 	const char *a = (const char *)addr;
+	if (!addr) {
+		// a fence: not a preemption point, but the observer wants to know
+		if (g_access_hook && !regions.empty()) g_access_hook(addr, size, is_write, order, -1, 0);
+		return;
+	}
 	for (size_t n = 0; n < regions.size(); n++) {
 		if (a >= regions[n].base && a < regions[n].base + regions[n].len) {
 			size_t off = (size_t)(a - regions[n].base);
+			// preempt first, observe second: nothing can run between the observer and the access itself
+			yield(Y_ACCESS, (uint32_t)((n << 28) ^ (off << 1) ^ (uint32_t)(is_write & 1)));
 			if (g_access_hook) g_access_hook(addr, size, is_write, order, (int)n, off);
-			yield(Y_ACCESS, (uint32_t)((n << 28) ^ (off << 1) ^ (uint32_t)is_write));
 			return;
 		}
 	}
